@@ -295,6 +295,24 @@ func (c *Cluster) addTopicLocked(name string, nparts int, leaders func(p int) in
 	return t
 }
 
+// GrowTopic adds n partitions to an existing topic.
+func (c *Cluster) GrowTopic(name string, n int) {
+	c.mu.Lock()
+	defer c.mu.Unlock()
+	t := c.Topics[name]
+	if t == nil {
+		return
+	}
+	ids := c.brokerIDsLocked()
+	for i := 0; i < n; i++ {
+		id := int32(len(t.Partitions))
+		l := ids[int(id)%len(ids)]
+		p := &Partition{Topic: name, ID: id, Leader: l, Replicas: []int32{l}, ISR: []int32{l}}
+		p.cond = sync.NewCond(&c.mu)
+		t.Partitions = append(t.Partitions, p)
+	}
+}
+
 func (c *Cluster) brokerIDsLocked() []int32 {
 	var ids []int32
 	for id := range c.Brokers {
